@@ -1,17 +1,55 @@
 (* C04 - A client sees its own location's records plus untagged ones, nothing else.
-   Only statements closed by [exact]; proofs are in Proofs/. *)
-From DnsV Require Import Base.Bytes Spec.Answer Proofs.Answer.
+   Only statements closed by [exact]; proofs are in Proofs/.
+   [same_view L recs recs'] : the records visible to location L (tagged L or untagged) coincide.
+   [store_v1 recs] : the v1-keyed store the records compile to (Spec/Rows row layout, rows under
+   a key in file order).  [serve] : the model of ServeDNSWithRCODE (Model/Serve.v). *)
+From DnsV Require Import Base.Bytes Model.Store Model.LookupV1 Model.Serve Spec.Answer Spec.Rows.
+From DnsV Require Import Proofs.Answer Proofs.Compile Proofs.Reads.
 Open Scope N_scope.
 
-(* the response prescribed for a client in location L depends only on the records visible
-   to L: any edit of records tagged with other locations leaves it unchanged *)
+(* CDB and RocksDB with v1 keys: for every pair of record sets with the same view for L, every
+   query, echoed ECS and max-answer, the served outcome for a client mapped to L is the same *)
+Theorem C04_foreign_edit_invisible_v1 : forall b recs recs' L q ecs max,
+  b <> RDB2 -> wf_locs recs -> wf_locs recs' -> length L = 2%nat -> same_view L recs recs' ->
+  serve b (store_v1 recs) q (LocOk L) ecs max = serve b (store_v1 recs') q (LocOk L) ecs max.
+Proof. exact foreign_edit_invisible_v1. Qed.
+Print Assumptions C04_foreign_edit_invisible_v1.
+
+(* the same at the level of stores: the v1 reader consults only keys L ++ name and 00 ++ name *)
+Theorem C04_v1_reads_only_own_and_untagged_keys : forall b st st' L q ecs max,
+  b <> RDB2 -> agree_on L st st' ->
+  serve b st q (LocOk L) ecs max = serve b st' q (LocOk L) ecs max.
+Proof. exact serve_v1_reads_only_visible. Qed.
+Print Assumptions C04_v1_reads_only_own_and_untagged_keys.
+
+(* the response the SPEC prescribes for a client in L depends only on the records visible to L *)
 Theorem C04_foreign_edit_invisible_spec : forall L recs recs' q qtype,
   same_view L recs recs' -> spec_response L recs q qtype = spec_response L recs' q qtype.
 Proof. exact spec_response_same_view. Qed.
 Print Assumptions C04_foreign_edit_invisible_spec.
 
-(* adding records of other locations is such an edit *)
+(* adding records of other locations is an edit that keeps the view *)
 Theorem C04_adding_foreign_keeps_view : forall L recs extra,
   forallb (fun r => negb (visible L r)) extra = true -> same_view L recs (recs ++ extra).
 Proof. exact same_view_foreign. Qed.
 Print Assumptions C04_adding_foreign_keeps_view.
+
+(* C04_foreign_edit_invisible_partial: the statement for the closest-key reader (RocksDB v2 keys)
+   is NOT proved; it needs seek_skip_sound (C02): the SeekForPrev probe does read foreign keys and
+   the claim is that they cannot influence the result.  The differential run covers it. *)
+
+(* non-trivial instance: a foreign (location ef) A record and NS at the queried name change nothing
+   for a client in location ab, while the located record for ab is served *)
+Example C04_example :
+  let own := mkRec [[119]; [122]] false (Some [97; 98]) 1 60 1 [10; 0; 0; 1] in
+  let apex := [mkRec [[122]] false None 6 60 0 [0; 0; 0; 0; 0; 1; 0; 0; 0; 2; 0; 0; 0; 3; 0; 0; 0; 4; 0; 0; 0; 5];
+               mkRec [[122]] false None 2 60 0 [1; 110; 0]] in
+  let foreign := [mkRec [[119]; [122]] false (Some [101; 102]) 1 60 1 [10; 9; 9; 9];
+                  mkRec [[119]; [122]] false (Some [101; 102]) 2 60 0 [1; 120; 0]] in
+  let q := mkQ 1 [1; 119; 1; 122; 0] 1 1 None in
+  same_view [97; 98] (own :: apex) (own :: apex ++ foreign) /\
+  serve CDB (store_v1 (own :: apex ++ foreign)) q (LocOk [97; 98]) None 1 =
+    OReply (mkResp 1 (Some ([1; 119; 1; 122; 0], 1, 1)) 0 true
+              [IPick [1; 119; 1; 122; 0] 1 1 [(60, 1, [10; 0; 0; 1])] 1] [] [] None).
+Proof. vm_compute. split; reflexivity. Qed.
+Print Assumptions C04_example.
